@@ -1504,4 +1504,191 @@ theorem consec_range : ∀ vs : List Ver, Consec vs → vs.map (·.n) = (List.ra
     rw [List.map_cons, consec_range vs h.2, h.1, List.length_cons, List.range_succ, List.reverse_append]
     rfl
 
+/-! ### end to end: an operation that stopped, then the sweep after the threshold -/
+
+theorem filterMap_congr' {α β} {f g : α → Option β} : ∀ {l : List α}, (∀ a ∈ l, f a = g a) → l.filterMap f = l.filterMap g
+  | [], _ => rfl
+  | x :: xs, h => by
+    rw [List.filterMap_cons, List.filterMap_cons, h x (List.mem_cons_self ..),
+      filterMap_congr' (fun a ha => h a (List.mem_cons_of_mem _ ha))]
+
+theorem eraseDups_all_eq (a : Nat) : ∀ l : List Nat, l ≠ [] → (∀ x ∈ l, x = a) → l.eraseDups = [a]
+  | [], h, _ => absurd rfl h
+  | x :: xs, _, h => by
+    have hx : x = a := h x (List.mem_cons_self ..)
+    subst hx
+    rw [List.eraseDups_cons]
+    have : xs.filter (fun b => !b == x) = [] := by
+      apply List.filter_eq_nil_iff.2
+      intro b hb
+      simp [h b (List.mem_cons_of_mem _ hb)]
+    rw [this]; rfl
+
+theorem clearRow_id {t : Nat} {r : DidRow} (h : ∀ v ∈ r.vers, v.pending = none) : clearRow t r = r := by
+  unfold clearRow
+  have : r.vers.map (clearTx t) = r.vers := by
+    conv => rhs; rw [← List.map_id r.vers]
+    apply List.map_congr_left
+    intro v hv
+    simp [clearTx_of_none (h v hv)]
+  rw [this]
+
+theorem map_clearRow_id {t : Nat} {dids : List DidRow} (h : ∀ r ∈ dids, ∀ v ∈ r.vers, v.pending = none) :
+    dids.map (clearRow t) = dids := by
+  conv => rhs; rw [← List.map_id dids]
+  apply List.map_congr_left
+  intro r hr
+  simp [clearRow_id (h r hr)]
+
+/-- the change records right after a first transaction on a database without change records -/
+theorem tx1_pending {cfg : Cfg} {w0 w1 : World} {o : Op} {chs : List Change}
+    (hnone : ∀ r ∈ w0.dids, ∀ v ∈ r.vers, v.pending = none) (ht : tx1 cfg w0 o = .ok (w1, chs)) :
+    ∀ r ∈ w1.dids, ∀ v ∈ r.vers, ∀ p, v.pending = some p → p.tx = w0.next ∧ v.ts = w0.now := by
+  by_cases hcr : ∃ s, o = .create s
+  · rcases hcr with ⟨s, rfl⟩
+    rcases tx1Create_ok (show tx1Create cfg w0 s = .ok (w1, chs) from ht) with ⟨hd, _⟩
+    rw [hd]
+    intro r hr v hv p hp
+    rcases List.mem_append.1 hr with ho | hn
+    · rw [hnone r ho v hv] at hp; cases hp
+    · rcases List.mem_map.1 hn with ⟨m, _, rfl⟩
+      simp only [newDid, List.mem_singleton] at hv
+      subst hv
+      simp only [Option.some.injEq] at hp
+      subst hp
+      exact ⟨rfl, rfl⟩
+  · have hnc : ∀ s, o ≠ .create s := fun s he => hcr ⟨s, he⟩
+    rw [tx1_is_update cfg w0 o hnc] at ht
+    rcases tx1Update_ok ht with ⟨hd, _⟩
+    rw [hd]
+    intro r' hr' v hv p hp
+    rcases List.mem_map.1 hr' with ⟨r, hr, rfl⟩
+    rcases pushRow_cases o w0.next w0.now r with he | ⟨_, _, c, he⟩ <;> rw [he] at hv
+    · rw [hnone r hr v hv] at hp; cases hp
+    · rcases List.mem_cons.1 hv with rfl | hin
+      · simp only [Option.some.injEq] at hp
+        subst hp
+        exact ⟨rfl, rfl⟩
+      · rw [hnone r hr v hin] at hp; cases hp
+
+theorem stopped_then_swept {cfg : Cfg} (hfix : Fixed cfg) (hms : cfg.methods.Nodup) {w0 w1 : World} {o : Op}
+    {chs : List Change} (hi : Inv w0.dids w0.next) (hnone : ∀ r ∈ w0.dids, ∀ v ∈ r.vers, v.pending = none)
+    (ht : tx1 cfg w0 o = .ok (w1, chs)) (pub : Nat → List Content) (d : Nat) (hd : cfg.threshold < d)
+    (ord : List Nat → List Nat) (hord : ∀ l, (ord l).Perm l) :
+    ((sweep cfg ord (tick d { w1 with pub := pub })).1.dids = w0.dids ∨
+     ((sweep cfg ord (tick d { w1 with pub := pub })).1.dids = w1.dids.map (clearRow w0.next) ∧
+      ∀ r ∈ w1.dids, ∀ v vs p, r.vers = v :: vs → v.pending = some p → r.method = .nuts → pubLatest pub r.id = some v.c)) ∧
+    (sweep cfg ord (tick d { w1 with pub := pub })).1.pub = pub := by
+  have hclean : Clean w0.dids o.subject := fun r hr _ v hv => hnone r hr v hv
+  have h1 := tx1_ok hms hi hclean ht
+  have hpend := tx1_pending hnone ht
+  -- the world the sweep sees
+  generalize hwS : tick d { w1 with pub := pub } = wS
+  have hSd : wS.dids = w1.dids := by rw [← hwS]; rfl
+  have hSn : wS.next = w1.next := by rw [← hwS]; rfl
+  have hSnow : wS.now = w0.now + d := by rw [← hwS]; simp [tick, h1.2.2.2.2.1]
+  have hSpub : wS.pub = pub := by rw [← hwS]; rfl
+  have hiS : Inv wS.dids wS.next := by rw [hSd, hSn]; exact h1.1
+  have hspec := sweep_spec ord hfix hord hiS
+  refine ⟨?_, by rw [hspec.2.2.2.1, hSpub]⟩
+  -- every change record is old, so the sweep looks at all of them; all belong to one transaction
+  have hold : ∀ ch ∈ allChanges wS, ch ∈ oldChanges cfg wS ∧ ch.tx = w0.next := by
+    intro ch hch
+    rcases (mem_allChanges wS ch).1 hch with ⟨r, hr, v, hv, p, hp, rfl⟩
+    have := hpend r (hSd ▸ hr) v hv p hp
+    refine ⟨?_, this.1⟩
+    unfold oldChanges
+    rw [List.mem_filter]
+    refine ⟨hch, ?_⟩
+    simp only [decide_eq_true_eq, this.2, hSnow]
+    omega
+  have hsw : sweepChanges cfg wS = allChanges wS := by
+    unfold sweepChanges
+    rw [if_pos hfix.wholeTx]
+    apply List.filter_eq_self.2
+    intro ch hch
+    simp only [List.any_eq_true, decide_eq_true_eq]
+    exact ⟨ch, (hold ch hch).1, rfl⟩
+  by_cases hempty : allChanges wS = []
+  · -- nothing was written: nothing to do
+    right
+    have hnp : ∀ r ∈ w1.dids, ∀ v ∈ r.vers, v.pending = none := by
+      intro r hr v hv
+      cases hp : v.pending with
+      | none => rfl
+      | some p =>
+        have : ({ did := r.id, method := r.method, row := v.row, typ := p.typ, tx := p.tx, ts := v.ts, c := v.c } : Change) ∈ allChanges wS :=
+          (mem_allChanges wS _).2 ⟨r, hSd ▸ hr, v, hv, p, hp, rfl⟩
+        rw [hempty] at this; cases this
+    constructor
+    · unfold sweep
+      simp only [hsw, hempty, List.map_nil]
+      have : ord ([] : List Nat).eraseDups = [] := List.Perm.eq_nil (hord _)
+      rw [this]
+      simp only [sweepTxs]
+      rw [hSd, map_clearRow_id hnp]
+    · intro r hr v vs p hv hp _
+      rw [hnp r hr v (by rw [hv]; exact List.mem_cons_self ..)] at hp; cases hp
+  · -- exactly one transaction
+    have htxs : ord ((sweepChanges cfg wS).map (·.tx)).eraseDups = [w0.next] := by
+      rw [hsw]
+      have : ((allChanges wS).map (·.tx)).eraseDups = [w0.next] := by
+        apply eraseDups_all_eq
+        · simpa using hempty
+        · intro x hx
+          rcases List.mem_map.1 hx with ⟨ch, hch, rfl⟩
+          exact (hold ch hch).2
+      rw [this]
+      exact List.perm_singleton.1 (hord _)
+    have hcompat := compat_init hfix hiS [w0.next] (by
+      intro ch hch
+      rw [hsw] at hch
+      rw [(hold ch hch).2]; exact List.mem_cons_self ..)
+    rcases committedLoop_ok hfix.notFound wS.pub ((sweepChanges cfg wS).filter (fun ch => ch.tx = w0.next)) with ⟨b, hb⟩
+    have hres : (sweep cfg ord wS).1 = sweepApply cfg wS ((sweepChanges cfg wS).filter (fun ch => ch.tx = w0.next)) w0.next b := by
+      unfold sweep
+      simp only [htxs, sweepTxs, hb]
+    have hdids := sweepApply_dids (cfg := cfg) wS b hiS hcompat
+    rw [hres, hdids]
+    cases b with
+    | true =>
+      right
+      constructor
+      · simp [sweepRows, hSd]
+      · intro r hr v vs p hv hp hm
+        have hmem : ({ did := r.id, method := r.method, row := v.row, typ := p.typ, tx := p.tx, ts := v.ts, c := v.c } : Change) ∈
+            (sweepChanges cfg wS).filter (fun ch => ch.tx = w0.next) := by
+          have hin := (mem_allChanges wS _).2 ⟨r, hSd ▸ hr, v, by rw [hv]; exact List.mem_cons_self .., p, hp, rfl⟩
+          rw [List.mem_filter, hsw]
+          exact ⟨hin, by simpa using (hold _ hin).2⟩
+        have hc := committedLoop_true wS.pub _ hb _ hmem
+        unfold isCommitted at hc
+        simp only [hm, hSpub] at hc
+        split at hc
+        · rw [if_pos hfix.notFound] at hc; cases hc
+        · rename_i cur hcur
+          simp only [Res.ok.injEq, beq_iff_eq] at hc
+          rw [hcur, hc]
+    | false =>
+      left
+      have hsel : ∀ r ∈ wS.dids, dropSel cfg (selOld (inOldTx cfg wS) w0.next) r = dropSel cfg (selTx w0.next) r := by
+        intro r hr
+        have : selOld (inOldTx cfg wS) w0.next r = selTx w0.next r := by
+          unfold selOld selTx headTx
+          cases hv : r.vers with
+          | nil => simp
+          | cons v vs =>
+            cases hp : v.pending with
+            | none => simp [hp]
+            | some p =>
+              have hin := (mem_allChanges wS _).2 ⟨r, hr, v, by rw [hv]; exact List.mem_cons_self .., p, hp, rfl⟩
+              have hq : inOldTx cfg wS v = true := by
+                simp only [inOldTx, hp, List.any_eq_true, decide_eq_true_eq]
+                exact ⟨_, (hold _ hin).1, rfl⟩
+              simp [hp, hq]
+        unfold dropSel
+        rw [this]
+      simp only [sweepRows, Bool.false_eq_true, if_false]
+      rw [filterMap_congr' hsel, hSd, tx1_restore hfix hi ht, map_clearRow_id hnone]
+
 end Nuts.C13
